@@ -16,6 +16,8 @@ mod scanner;
 pub(crate) mod string_utils; // pub(crate) for inlay_hint provider access
 pub mod types;
 mod undeclared;
+#[cfg(pytest_language_server_verif)]
+mod verif_trace;
 
 #[allow(unused_imports)] // ParamInsertionInfo re-exported for public API via lib.rs
 pub use types::{
